@@ -3,11 +3,12 @@ CONSTANTS
   Keys = {"a"}
   Vals = {1, 2}
   MaxEpoch = 3
+  PrepEpochs = {0, 1, 2, 3}
   ActiveNums = {1, 2}
   KeepNums = {2, 3}
   KnownDefects = {}
   Log <- LogLast
   Depth = 0
 VIEW cvars
-INVARIANTS TypeOK Inv_C30_ReadableWhileActive Inv_C30_ReadsNewestValue Inv_C30_ReadableWhileRetained Inv_C30_RemovedUnreadable Inv_C30_Answers
+INVARIANTS TypeOK Inv_C30_ReadableWhileActive Inv_C30_ReadsNewestValue Inv_C30_ReadableWhileRetained Inv_C30_RemovedUnreadable Inv_C30_Answers Inv_C30_ObservedReads Inv_C30_PersisterContents
 CHECK_DEADLOCK FALSE
